@@ -98,9 +98,9 @@ def maskPixels (a : Array Nat) (f x w : Nat) : Array Nat :=
 /-- `storeScanline img m x 0 values`, one `convertAndStorePixel` at a time (that this is the same function is
 `Pixman.Props.C10.storeScanline_eq_foldl`) -/
 def storeLine (img : Image) (a : Array Nat) (x : Nat) (values : List Nat) : Array Nat :=
-  (values.zipIdx).foldl (fun a (v, i) =>
+  (values.zipIdx x).foldl (fun a (v, o) =>
     -- `convertAndStorePixel pal m dest o f v` unfolded (definitionally) so that the conversion runs once
-    storeRawArr a (img.row 0) (x + i) (fmtBpp img.format) (convertPixelFromA8r8g8b8 img.pal img.format v)) a
+    storeRawArr a (img.row 0) o (fmtBpp img.format) (convertPixelFromA8r8g8b8 img.pal img.format v)) a
 
 def ratStr (q : Rat) : String := toString q.num ++ "/" ++ toString q.den
 def argbStr (p : Argb) : String := ratStr p.a ++ " " ++ ratStr p.r ++ " " ++ ratStr p.g ++ " " ++ ratStr p.b
